@@ -1185,29 +1185,48 @@ def describe(case: Case):
 
 
 def call_at_section_end(case: Case) -> bool:
-    """Signature of finding C01-call-at-section-end: after the edits a patch
-    leaves a position that is not followed by code (end of section, or data
-    follows) but must stay addressable as a code position: the return site of
-    a patch-inserted direct call to a module function, or a patch label that a
-    patch branch/call targets.  The zero-sized continuation block cannot be
-    removed and _cleanup_modified_blocks asserts."""
+    """Signature of finding C01-call-at-section-end: when it is inserted, a
+    patch leaves a position that is not followed by code (end of section, or
+    data follows) but must stay addressable as a code position: the return
+    site of a patch-inserted direct call to a module function, or a patch
+    label that a patch branch/call targets.  The zero-sized continuation block
+    cannot be removed and _cleanup_modified_blocks asserts.  "When it is
+    inserted": patches applied later at the same location are ignored."""
     exp = Expected(case)
+    anchor = {}
+    for ed in case.edits:
+        if ed.op != "delete":
+            anchor.setdefault(ed.reg, {})[ed.b] = (ed.b, ed.i)
+
+    def later_same_anchor(u, v):
+        """is v a unit of a patch applied after u's patch at the same location?"""
+        if not (v.origin and v.origin[0] == "patch" and u.origin[0] == "patch"):
+            return False
+        au = anchor.get(u.origin[1], {})
+        av = anchor.get(v.origin[1], {})
+        common = set(au.values()) & set(av.values())
+        return bool(common) and v.origin[1] > u.origin[1]
+
     for si, insns in enumerate(exp.insns):
-        nocode = {len(exp.sec_bytes[si])}
-        for k, e in enumerate(insns):
-            if e.unit.kind == "data":
-                nocode.add(e.pos)
         for k, e in enumerate(insns):
             u = e.unit
             if not (u.origin and u.origin[0] == "patch"):
                 continue
-            end = e.pos + len(u.data)
-            if u.kind == "call" and u.sym not in case.externs and end in nocode:
+
+            def nocode_after(pos_index):
+                j = pos_index
+                while j < len(insns) and later_same_anchor(u, insns[j].unit):
+                    j += 1
+                return j >= len(insns) or insns[j].unit.kind == "data"
+
+            if u.kind == "call" and u.sym not in case.externs and nocode_after(k + 1):
                 return True
             if u.kind in ("jmp", "jcc", "call") and u.sym in exp.patch_labels:
                 lsi, lpos, _t = exp.patch_labels[u.sym]
-                if lsi == si and lpos in nocode:
-                    return True
+                if lsi == si:
+                    j = next((x for x, ee in enumerate(insns) if ee.pos >= lpos), len(insns))
+                    if nocode_after(j):
+                        return True
     return False
 
 
